@@ -50,15 +50,20 @@ def tie(tag, module_path, funcs, tmpl_name, theorems, imports=""):
     d = os.path.join(core.BUILD, "PyLite_%d" % os.getpid())
     os.makedirs(d, exist_ok=True)
     path = os.path.join(d, tag + ".v")
-    try:
-        defs = translate_pylite.translate(os.path.join(core.REPO, module_path), funcs)
-    except translate_pylite.Unsupported as exc:
-        return [(t, False, "translator failed closed: %s" % exc) for t in theorems]
+    defs = {}
+    untranslated = {}
+    for fn in funcs:
+        try:
+            defs.update(translate_pylite.translate(os.path.join(core.REPO, module_path), [fn]))
+        except translate_pylite.Unsupported as exc:
+            untranslated[fn] = str(exc)      # its theorems (and those that use it) will fail to compile
+        except (OSError, SyntaxError) as exc:
+            return [(t, False, "cannot read the source: %s" % exc) for t in theorems]
     tmpl = open(os.path.join(os.path.dirname(__file__), tmpl_name)).read()
     # split the template into sections
     pos = [m.start() for m in SECTION.finditer(tmpl)] + [len(tmpl)]
     sections = [tmpl[:pos[0]]] + [tmpl[pos[i]:pos[i + 1]] for i in range(len(pos) - 1)]
-    head = HEAD % imports + "\n".join(defs[n] for n in funcs) + "\n"
+    head = HEAD % imports + "\n".join(defs[n] for n in funcs if n in defs) + "\n"
     failed = {}
     t0 = time.time()
     for _ in range(len(sections) + 1):
@@ -81,8 +86,10 @@ def tie(tag, module_path, funcs, tmpl_name, theorems, imports=""):
             for t in theorems:
                 failed.setdefault(t, "coqc failed outside the template sections: " + out[-500:])
             break
+        why = "".join("translator failed closed on %s: %s; " % (f, m) for f, m in untranslated.items()
+                      if "src_" + f in sections[hit])
         for t in re.findall(r"^\s*Theorem\s+(\w+)", sections[hit], re.M):
-            failed.setdefault(t, "NOT re-proved: coqc failed in %s: %s" % (name, out[-500:]))
+            failed.setdefault(t, "NOT re-proved: %scoqc failed in %s: %s" % (why, name, out[-500:]))
         sections[hit] = ""
     secs = time.time() - t0
     closed = out.count("Closed under the global context") if rc == 0 else 0
